@@ -52,6 +52,12 @@ def run(ctx):
         iv: dt.Interval
         n: int
 
+    @bnpdataclass
+    class Pair:
+        first: dt.Interval
+        second: dt.Interval
+        relation: str
+
     Dyn = make_dataclass([("a", int), ("b", str), ("c", float)], "Dyn")
 
     IDC = "abcXYZ019_."
@@ -79,6 +85,7 @@ def run(ctx):
                              ("item_rgb", "str1"), ("block_count", "int"), ("block_sizes", "ints"), ("block_starts", "ints")]),
         "Mixed": (Mixed, [("name", "str"), ("ident", "id"), ("count", "int"), ("score", "float"), ("flag", "bool"), ("opt", "int"), ("vals", "ints"), ("dna", "dna")]),
         "Nested": (Nested, [("label", "str"), ("iv", "iv"), ("n", "int")]),
+        "Pair": (Pair, [("first", "iv"), ("second", "iv"), ("relation", "str")]),
         "Dyn": (Dyn, [("a", "int"), ("b", "str"), ("c", "float")]),
     }
 
@@ -186,7 +193,7 @@ def run(ctx):
             nt = (tname, repr(rows), repr(history), op) if n >= 2 else None
             before = observed_rows(t, spec)
             wit = dict(init, program=history + [op])
-            opkey = "%s.%s" % (tname if tname in ("Nested", "Mixed", "Bed12", "SequenceEntryWithQuality") else "table", op)
+            opkey = "%s.%s" % (tname if tname in ("Nested", "Pair", "Mixed", "Bed12", "SequenceEntryWithQuality") else "table", op)
             try:
                 if op == "len":
                     ctx.check(opkey, len(t) == n, "%s/len" % opkey, "len %d != %d" % (len(t), n), wit, nt)
@@ -330,6 +337,15 @@ def run(ctx):
             ctx.judged("construct-raises", "uneq")
         t = dt.Interval(["a", "b"], [1, 2], [4, 5])
         ctx.check("construct-converts", isinstance(t.start, np.ndarray) and t.start.dtype.kind == "i" and t.chromosome.tolist() == ["a", "b"], "construct/no-conversion", "lists were not converted to arrays", {}, "conv")
+        from bionumpy.encodings import alphabet_encoding as ae
+        for src_name, text in (("ACUGEncoding", "ACU"), ("ACUGEncoding", "AUG"), ("ACTGEncoding", "ACT"), ("ACTGEncoding", "TTG"), ("AminoAcidEncoding", "ACD"), ("ACGTnEncoding", "ACGN"), ("ACGTnEncoding", "ACG")):
+            pre = bnp.as_encoded_array([text, text[:1]], getattr(ae, src_name))
+            try:
+                t = Mixed(["x", "y"], ["i", "j"], [1, 2], [1.0, 2.0], [True, False], [2, 3], [[1, 2], []], pre)
+                got = t.dna.tolist()
+                ctx.check("construct-converts", got == [text, text[:1]], "construct/pre-encoded-column-relabelled", "DNA column built from %s-encoded %r reads %r" % (src_name, [text, text[:1]], got), {"source_encoding": src_name, "text": text, "got": got}, ("pre", src_name, text))
+            except Exception:
+                ctx.judged("construct-raises", ("pre", src_name, text))
         try:
             Mixed(["x"], ["i"], [1], [1.0], [True], [2], [[1, 2]], ["ACGX"])
             ctx.check("construct-raises", False, "construct/invalid-dna-accepted", "DNA column accepted 'ACGX'", {}, "dna")
